@@ -1112,9 +1112,9 @@ def generate(release=False):
     _, _, b = R.find_fn(cv, "hint_bit_unpack")
     conds = []
     R.walk(b, lambda n: conds.append(n[1]) if (n and isinstance(n[0], str) and (
-        n[0] == "while" or (n[0] == "if" and R.find_all(n[2], lambda m: m[0] == "return")))) else None)
+        n[0] == "while" or (n[0] == "if" and R.find_all(n[2], lambda m: m[0] == "return" or m == ("break",) or m == ("continue",))))) else None)
     if len(conds) != 5:
-        raise TranslateError("hint_bit_unpack: expected 5 exit/loop conditions, found %d" % len(conds))
+        raise TranslateError("hint_bit_unpack: expected 5 exit/loop conditions (while, and if .. return/break/continue), found %d" % len(conds))
     hb_hints = {"y_bytes": "u8", "index": "u8", "first": "u8"}
     for i, cnd in enumerate(conds):
         g.fragment("k_hbu_cond%d" % (i + 1), "conversion.rs: fn hint_bit_unpack, condition %d" % (i + 1), cnd, hints=dict(hb_hints), want="bool")
